@@ -100,7 +100,7 @@ MUTANTS = {
         ("parse-config-stored-on-model", "tatsu/peg/base.py", "        config = self.config.override_config(config)\n        assert isinstance(config, ParserConfig)\n        # NOTE: bw-comp", "        config = self._config = self.config.override_config(config)\n        assert isinstance(config, ParserConfig)\n        # NOTE: bw-comp", "caught"),
         ("shared-parse-context", "tatsu/peg/base.py", "        return ModelContext(self.rules, config=self.config, asmodel=asmodel)", "        if not hasattr(self, '_ctx_cached'):\n            self._ctx_cached = ModelContext(self.rules, config=self.config, asmodel=asmodel)\n        return self._ctx_cached", "caught"),
         ("semantic-action-cache-by-name", "tatsu/contexts/core.py", "        return find_cached_semantic_action(self.semantics, name)", "        cache = globals().setdefault('_ACTION_CACHE', {})\n        if name not in cache:\n            cache[name] = find_cached_semantic_action(self.semantics, name)\n        return cache[name]", "caught"),
-        ("global-default-builder", "tatsu/peg/base.py", "            self.config.semantics = ModelBuilderSemantics()\n\n        self._rulemap", "            self.config.semantics = globals().setdefault('_SHARED_BUILDER', ModelBuilderSemantics())\n\n        self._rulemap", "caught"),
+        ("global-default-builder", "tatsu/contexts/core.py", "        if not self.config.semantics and asmodel:\n            self.config.semantics = ModelBuilderSemantics()\n        self.semantics: type | None = config.semantics", "        if not self.config.semantics and asmodel:\n            self.config.semantics = globals().setdefault('_SHARED_BUILDER', ModelBuilderSemantics())\n        self.semantics: type | None = config.semantics", "caught-thorough-history"),
         ("no-synth-lock", "tatsu/objectmodel/synth.py", "    with __registry_lock:\n", "    if True:\n", "caught-thorough"),
         ("no-optimize-lock", "tatsu/peg/base.py", "        with _optimize_lock:\n            if isinstance(self._optimized, Grammar):", "        if True:\n            if isinstance(self._optimized, Grammar):", "caught-thorough"),
         # negative controls
@@ -203,6 +203,11 @@ def sensitivity(prop, only=None) -> int:
                 # needs a particular interleaving inside a short window: thread schedules only, more of them
                 env["VERIF_C10_MODE"] = "threads"
                 cmd = [os.path.join(VERIF, "check"), prop, "--runs", "6000", "--wall", "900"]
+                expect = "caught"
+            if expect == "caught-thorough-history":
+                # needs four particular calls in one history: more histories
+                env["VERIF_C10_MODE"] = "history"
+                cmd = [os.path.join(VERIF, "check"), prop, "--runs", "12000", "--wall", "1200"]
                 expect = "caught"
             p = subprocess.run(cmd, env=env, capture_output=True, text=True, timeout=3600)
             got = "caught" if (p.returncode == 1 and "VIOLATION property=" in p.stdout) else ("quiet" if p.returncode == 0 else f"error({p.returncode})")
